@@ -204,6 +204,9 @@ func runC01(s *kernel.Sim) {
 	reqN := 0
 	noise := tp.Chance(1, 3)
 	s.Knobs["unrelated_headers"] = noise
+	reuseIDs := tp.Chance(1, 4)
+	s.Knobs["request_ids_sent_again"] = reuseIDs
+	var seqIDs []string
 	issue := func(target int, grp string) (string, map[string]string) {
 		reqN++
 		h := map[string]string{}
@@ -382,6 +385,16 @@ func runC01(s *kernel.Sim) {
 		target := tp.Choose(nLevels)
 		grp := groups[tp.Choose(len(groups))]
 		id, h := issue(target, grp)
+		// request ids come from the client (x-lunar-req-id; a retry keeps its id): a quarter
+		// of the runs re-send the id of an earlier, completed request now and then - every
+		// transaction counts, whatever it calls itself
+		if reuseIDs && len(seqIDs) > 0 && tp.Chance(1, 3) {
+			id = seqIDs[tp.Choose(len(seqIDs))]
+			delete(incs, id) // the increments of its earlier use are not this one's
+			s.Probe("request_id_sent_again")
+		} else {
+			seqIDs = append(seqIDs, id)
+		}
 		cost := int64(1)
 		if costMode {
 			cost = int64(tp.Range(1, int(levels[target].max)+3))
